@@ -132,6 +132,9 @@ class BeamSearchAlgorithm:
         bfs_layers_hashes = [graph.central_state_hash]
         if bfs_result_for_mitm is not None:
             assert bfs_result_for_mitm.graph == graph.definition
+            # Layer j of the BFS result holds states reachable *from* the central state in j steps.
+            # They are j steps away *to* the central state only if generators are inverse-closed.
+            assert graph.definition.generators_inverse_closed, "Meet-in-the-middle needs inverse-closed generators."
             bfs_layers_hashes = bfs_result_for_mitm.layers_hashes
 
         # Checks if any of `hashes` are in neighborhood of the central state.
